@@ -63,7 +63,14 @@ def check(rep, tier, seed):
         cols = ["s%d" % i for i in range(n)]
         recs = [["0/1"] + ["0/0"] * (n - 1), ["1/1"] * (n - 1) + ["0/1"], ["0/1", "./."] + ["0/0"] * (n - 2), ["./."] * (n - 3) + ["0/1"] * 3,
                 [rng.choice(["0/0", "0/1", "1/1"]) for _ in cols], ["1/1"] + ["0/0"] * (n - 1)]
-        for m in (10, n, 2 * n - 2):
+        ms = [10, n, 2 * n - 2]
+        if n >= 515:
+            # the band where C(2n, m) just exceeds the largest double while the numerators of the likely cells are still
+            # finite: the first m at which the denominator overflows, and a few above it
+            import math
+            m0 = next(m for m in range(1, n) if math.comb(2 * n, m) > 2**1024)
+            ms += [m0 - 2, m0, m0 + 1, m0 + 3, m0 + 6, m0 + 12, m0 + 25]
+        for m in ms:
             cons_jobs.append((["create", "--precision", "9", "--project-shape", str(m + 1)], render_vcf(cols, recs))); cons_meta.append((n, m, len(recs)))
     for job, (rc, so, se), (n, m, nrec) in zip(cons_jobs, run_cli_many(cons_jobs, timeout=600), cons_meta):
         rep.count("run-loop:large-cohort-conservation", "%d samples -> %d chromosomes" % (n, m), True)
